@@ -3,15 +3,35 @@ From ZV Require Import Base.Bytes Base.Res C39.Model C39.Spec.
 From Coq Require Import Lia.
 
 (* ---------------------------------------------------------------- list facts *)
-Lemma lookup_remove_len n l k : lookup n l = Some k -> length (remove_h n l) + 1 = length l.
+Lemma weight_pos k : 1 <= weight k.
+Proof. destruct k; cbn; lia. Qed.
+Lemma lookup_remove_len n l k : lookup n l = Some k -> sumw (remove_h n l) + weight k = sumw l.
 Proof.
-  induction l as [|[m k'] l IH]; cbn; [discriminate|]. destruct (Nat.eqb n m); [intros _; lia|]. intros H. cbn. specialize (IH H). lia.
+  induction l as [|[m k'] l IH]; cbn; [discriminate|]. destruct (Nat.eqb n m); [intros H; inversion H; subst; lia|].
+  intros H. cbn. specialize (IH H). lia.
 Qed.
-Lemma lookup_some_len n l k : lookup n l = Some k -> 0 < length l.
-Proof. destruct l as [|[m k'] l]; cbn; [discriminate | lia]. Qed.
+Lemma lookup_set_len n l k k' : lookup n l = Some k -> sumw (set_h n k' l) + weight k = sumw l + weight k'.
+Proof.
+  induction l as [|[m k0] l IH]; cbn; [discriminate|]. destruct (Nat.eqb n m); [intros H; inversion H; subst; cbn; lia|].
+  intros H. cbn. specialize (IH H). lia.
+Qed.
+Lemma lookup_set_pos n l k k' : lookup n l = Some k -> 0 < sumw (set_h n k' l).
+Proof.
+  destruct l as [|[m k0] l]; cbn; [discriminate|]. intros _. destruct (Nat.eqb n m); cbn; [pose proof (weight_pos k') | pose proof (weight_pos k0)]; lia.
+Qed.
+Lemma lookup_some_len n l k : lookup n l = Some k -> 0 < sumw l.
+Proof. destruct l as [|[m k'] l]; cbn; [discriminate|]. intros _. pose proof (weight_pos k'). lia. Qed.
+Lemma sumw_zero l : sumw l = 0 -> l = [].
+Proof. destruct l as [|[m k] l]; [reflexivity|]. cbn. pose proof (weight_pos k). lia. Qed.
 Lemma mem_remove_len n l : mem_n n l = true -> length (remove_n n l) + 1 = length l.
 Proof.
   unfold mem_n. induction l as [|m l IH]; cbn; [discriminate|]. destruct (Nat.eqb n m); cbn; [lia|]. intros H. specialize (IH H). lia.
+Qed.
+Lemma sumn_snoc l x : sumn (l ++ [x]) = sumn l + x.
+Proof. induction l as [|y l IH]; cbn; lia. Qed.
+Lemma zombies_zero l : forallb (Nat.leb 1) l = true -> sumn l = 0 -> l = [].
+Proof.
+  destruct l as [|x l]; [reflexivity|]. cbn [forallb sumn]. intros H. apply Bool.andb_true_iff in H. destruct H as [H _]. apply Nat.leb_le in H. lia.
 Qed.
 
 (* ---------------------------------------------------------------- the reference count and the transport *)
@@ -48,19 +68,76 @@ Proof.
   - unfold Inv. rewrite Ea. repeat split; try assumption; try discriminate.
 Qed.
 
-Lemma Inv_step l s s' : Inv s -> step l s = Some s' -> Inv s'.
+(* a cancelled cache task still holds at least one reference *)
+Definition Zpos (s : st) : Prop := forallb (Nat.leb 1) (zombies s) = true.
+
+Lemma Zpos_settle s : Zpos s -> Zpos (settle s).
+Proof. unfold settle, Zpos. destruct (alive s && Nat.eqb (strong s) 0); auto. Qed.
+
+Lemma Zpos_step l s s' : Zpos s -> step l s = Some s' -> Zpos s'.
 Proof.
-  intros (Ha & Hd & Ho & Hc) Hs. destruct l as [n src k|n| |k| |k|n|n|n|]; cbn [step] in Hs.
-  - destruct (source_ok (lookup src (handles s)) k && negb (match lookup n (handles s) with Some _ => true | None => false end)) eqn:E; [|discriminate].
+  intros Hz Hs. destruct l as [n src k|n|n|n|n| | |k| |k|n|n|n|]; cbn [step] in Hs.
+  - destruct (source_ok (lookup src (handles s)) k && negb (match lookup n (handles s) with Some _ => true | None => false end)); [|discriminate].
+    inversion Hs; subst. exact Hz.
+  - destruct (lookup n (handles s)) as [[| |r|c| |]|]; try discriminate; inversion Hs; subst; apply Zpos_settle; unfold Zpos in *; cbn [zombies upd upd_z]; try exact Hz.
+    destruct c; cbn [started cw]; try exact Hz; rewrite forallb_app, Hz; reflexivity.
+  - destruct (lookup n (handles s)) as [k|]; [|discriminate].
+    destruct (leaves_remover k || match k with HStreamAll => true | _ => false end); [|discriminate]. inversion Hs; subst. apply Zpos_settle. exact Hz.
+  - destruct (lookup n (handles s)) as [[| | |[| | |]| |]|]; try discriminate. inversion Hs; subst. exact Hz.
+  - destruct (lookup n (handles s)) as [[| | |[| | |]| |]|]; try discriminate. inversion Hs; subst. exact Hz.
+  - destruct (zombies s) as [|w z] eqn:Ez; [discriminate|]. inversion Hs; subst. apply Zpos_settle. unfold Zpos in *. cbn. rewrite Ez in Hz.
+    cbn in Hz. apply Bool.andb_true_iff in Hz. tauto.
+  - destruct (removers s); [discriminate|]. inversion Hs; subst. apply Zpos_settle. exact Hz.
+  - destruct (reader s && alive s); [|discriminate]. inversion Hs; subst. exact Hz.
+  - destruct (queued s); [discriminate|]. destruct (alive s); inversion Hs; subst; exact Hz.
+  - destruct (mem_n k (inflight s)); [|discriminate]. inversion Hs; subst. apply Zpos_settle. exact Hz.
+  - destruct (lookup n (handles s)) as [[| | | | |]|]; try discriminate. inversion Hs; subst. apply Zpos_settle. exact Hz.
+  - destruct (lookup n (handles s)) as [[| | | | |]|]; try discriminate. inversion Hs; subst. apply Zpos_settle. exact Hz.
+  - destruct (mem_n n (waiters s) && negb (alive s)); [|discriminate]. inversion Hs; subst. exact Hz.
+  - destruct (reader s && negb (alive s)); [|discriminate]. inversion Hs; subst. exact Hz.
+Qed.
+
+Lemma Inv_step l s s' : Zpos s -> Inv s -> step l s = Some s' -> Inv s'.
+Proof.
+  intros Hz (Ha & Hd & Ho & Hc) Hs. destruct l as [n src k|n|n|n|n| | |k| |k|n|n|n|]; cbn [step] in Hs.
+  - (* LNew *)
+    destruct (source_ok (lookup src (handles s)) k && negb (match lookup n (handles s) with Some _ => true | None => false end)) eqn:E; [|discriminate].
     inversion Hs; subst; clear Hs. apply Bool.andb_true_iff in E. destruct E as [E _].
-    assert (Hlive : 0 < length (handles s)).
+    assert (Hlive : 0 < sumw (handles s)).
     { destruct (lookup src (handles s)) eqn:El; [eapply lookup_some_len; eassumption | discriminate]. }
     unfold Inv, strong in *. cbn. repeat split; try assumption; try lia.
-    intros Hf. specialize (Hd Hf). lia.
-  - destruct (lookup n (handles s)) as [k|] eqn:El; [|discriminate]. inversion Hs; subst; clear Hs.
-    pose proof (lookup_remove_len _ _ _ El) as Hl. apply Inv_settle; cbn; try assumption.
-    intros Hf. specialize (Hd Hf). unfold strong in *. cbn. destruct (leaves_remover k); lia.
-  - destruct (removers s) as [|r] eqn:Er; [discriminate|]. inversion Hs; subst; clear Hs. apply Inv_settle; cbn; try assumption.
+    all: try (intros Hf; specialize (Hd Hf); lia).
+  - (* LDrop *)
+    destruct (lookup n (handles s)) as [k|] eqn:El; [|discriminate]. pose proof (lookup_remove_len _ _ _ El) as Hl.
+    assert (Hgen : forall s1, Some (settle s1) = Some s' -> alive s1 = alive s -> events s1 = events s ->
+                     (alive s = false -> strong s1 = 0) -> Inv s').
+    { intros s1 H1 E1 E2 E3. inversion H1; subst. apply Inv_settle; rewrite ?E1, ?E2; assumption. }
+    destruct k as [| |r|c| |]; try (eapply Hgen; [exact Hs | reflexivity | reflexivity |];
+      intros Hf; specialize (Hd Hf); unfold strong in *; cbn in *; lia).
+  - (* LAsyncDrop *)
+    destruct (lookup n (handles s)) as [k|] eqn:El; [|discriminate]. pose proof (lookup_remove_len _ _ _ El) as Hl.
+    destruct (leaves_remover k || match k with HStreamAll => true | _ => false end); [|discriminate].
+    inversion Hs; subst; clear Hs. apply Inv_settle; cbn; try assumption.
+    intros Hf. specialize (Hd Hf). unfold strong in *. cbn. pose proof (weight_pos k). lia.
+  - (* LCacheStart *)
+    destruct (lookup n (handles s)) as [[| | |[| | |]| |]|] eqn:El; try discriminate. inversion Hs; subst; clear Hs.
+    pose proof (lookup_set_len _ _ _ (HProxy CInit) El) as Hl. cbn in Hl. pose proof (lookup_some_len _ _ _ El) as Hpos.
+    unfold Inv, strong in *. cbn. repeat split; try assumption.
+    + intros Hal. specialize (Ha Hal). lia.
+    + intros Hf. specialize (Hd Hf). lia.
+  - (* LCacheReady *)
+    destruct (lookup n (handles s)) as [[| | |[| | |]| |]|] eqn:El; try discriminate. inversion Hs; subst; clear Hs.
+    pose proof (lookup_set_len _ _ _ (HProxy CRun) El) as Hl. cbn in Hl. pose proof (lookup_some_len _ _ _ El) as Hpos.
+    pose proof (lookup_set_pos _ _ _ (HProxy CRun) El) as Hpos2.
+    unfold Inv, strong in *. cbn. repeat split; try assumption.
+    + intros _. lia.
+    + intros Hf. specialize (Hd Hf). lia.
+  - (* LReap *)
+    destruct (zombies s) as [|w z] eqn:Ez; [discriminate|]. inversion Hs; subst; clear Hs. apply Inv_settle; cbn; try assumption.
+    intros Hf. specialize (Hd Hf). unfold strong, Zpos in *. cbn in *. rewrite Ez in Hd, Hz. cbn in Hd, Hz.
+    apply Bool.andb_true_iff in Hz. destruct Hz as [Hw _]. destruct w; [discriminate | lia].
+  - (* LRemover *)
+    destruct (removers s) as [|r] eqn:Er; [discriminate|]. inversion Hs; subst; clear Hs. apply Inv_settle; cbn; try assumption.
     intros Hf. specialize (Hd Hf). unfold strong in *. cbn. lia.
   - destruct (reader s && alive s); [|discriminate]. inversion Hs; subst; clear Hs. unfold Inv, strong in *. cbn. tauto.
   - destruct (queued s) as [|k q]; [discriminate|]. destruct (alive s) eqn:Ea; inversion Hs; subst; clear Hs; unfold Inv, strong in *; cbn; rewrite Ea in *.
@@ -74,34 +151,36 @@ Proof.
     + rewrite Hal. discriminate.
     + rewrite ordered_b_snoc, Ho, Hc, Hal. reflexivity.
     + rewrite closed_after_snoc, Hc. cbn. now rewrite Bool.orb_false_r.
-  - destruct (lookup n (handles s)) as [[| | | |]|] eqn:El; try discriminate. inversion Hs; subst; clear Hs.
+  - destruct (lookup n (handles s)) as [[| | | | |]|] eqn:El; try discriminate. inversion Hs; subst; clear Hs.
     pose proof (lookup_remove_len _ _ _ El) as Hl. apply Inv_settle; cbn; try assumption.
-    intros Hf. specialize (Hd Hf). unfold strong in *. cbn. lia.
-  - destruct (lookup n (handles s)) as [[| | | |]|] eqn:El; try discriminate. inversion Hs; subst; clear Hs.
+    intros Hf. specialize (Hd Hf). unfold strong in *. cbn in *. lia.
+  - destruct (lookup n (handles s)) as [[| | | | |]|] eqn:El; try discriminate. inversion Hs; subst; clear Hs.
     pose proof (lookup_remove_len _ _ _ El) as Hl.
     assert (Hal : alive s = true).
-    { destruct (alive s) eqn:Ea; [reflexivity|]. specialize (Hd eq_refl). unfold strong in Hd. lia. }
+    { destruct (alive s) eqn:Ea; [reflexivity|]. specialize (Hd eq_refl). unfold strong in Hd. cbn in Hl. lia. }
     apply Inv_settle; cbn [alive events upd].
     + rewrite Hal. discriminate.
     + rewrite ordered_b_snoc, Ho, Hc, Hal. reflexivity.
     + rewrite closed_after_snoc, Hc. cbn. now rewrite Bool.orb_false_r.
   - destruct (mem_n n (waiters s) && negb (alive s)) eqn:E; [|discriminate]. inversion Hs; subst; clear Hs.
     apply Bool.andb_true_iff in E. destruct E as [_ E]. apply Bool.negb_true_iff in E.
-    unfold Inv, strong in *. cbn [alive events upd handles removers inflight]. rewrite E in *. repeat split; try assumption; try discriminate.
+    unfold Inv, strong in *. cbn [alive events upd handles removers inflight zombies]. rewrite E in *. repeat split; try assumption; try discriminate.
     + rewrite ordered_b_snoc, Ho, Hc. reflexivity.
     + rewrite closed_after_snoc, Hc. reflexivity.
   - destruct (reader s && negb (alive s)) eqn:E; [|discriminate]. inversion Hs; subst; clear Hs.
     apply Bool.andb_true_iff in E. destruct E as [_ E]. apply Bool.negb_true_iff in E.
-    unfold Inv, strong in *. cbn [alive events upd handles removers inflight]. rewrite E in *. repeat split; try assumption; try discriminate.
+    unfold Inv, strong in *. cbn [alive events upd handles removers inflight zombies]. rewrite E in *. repeat split; try assumption; try discriminate.
     + rewrite ordered_b_snoc, Ho, Hc. reflexivity.
     + rewrite closed_after_snoc, Hc. reflexivity.
 Qed.
 
-Theorem Inv_reach tr s : reach tr s -> Inv s.
+Theorem Inv_reach_both tr s : reach tr s -> Zpos s /\ Inv s.
 Proof.
-  intros Hr. induction Hr as [|tr s l s' Hr IH Hs]; [|eapply Inv_step; eassumption].
-  unfold Inv, strong. cbn. repeat split; try discriminate; lia.
+  intros Hr. induction Hr as [|tr s l s' Hr [IHz IH] Hs]; [|split; [eapply Zpos_step | eapply Inv_step]; eassumption].
+  split; [reflexivity|]. unfold Inv, strong. cbn. repeat split; try discriminate; lia.
 Qed.
+Theorem Inv_reach tr s : reach tr s -> Inv s.
+Proof. intros Hr. apply (Inv_reach_both tr s Hr). Qed.
 
 (* the transport is closed exactly when no strong reference is left *)
 Theorem close_iff tr s : reach tr s -> (alive s = false <-> strong s = 0).
@@ -150,14 +229,18 @@ Proof.
   - rewrite Hb. reflexivity.
 Qed.
 
-(* it returns only after the last reference — hence after every handler that was in flight has replied and ended *)
+(* it returns only after the last reference — hence after every handler that was in flight has replied and ended, every proxy
+   (with the cache it started) is gone and the executor has dropped every cancelled cache task *)
 Theorem graceful_only_after tr s n : reach tr s -> In (EWake n) (events s) ->
-  alive s = false /\ handles s = [] /\ inflight s = [] /\ removers s = 0.
+  alive s = false /\ handles s = [] /\ inflight s = [] /\ removers s = 0 /\ zombies s = [].
 Proof.
-  intros Hr Hin. destruct (Inv_reach tr s Hr) as (_ & Hd & Ho & Hc).
+  intros Hr Hin. destruct (Inv_reach_both tr s Hr) as (Hz & _ & Hd & Ho & Hc).
   assert (Hw : existsb is_wake (events s) = true) by (apply existsb_exists; exists (EWake n); now split).
   pose proof (wake_in_closed _ _ Ho Hw) as H. rewrite Hc in H. apply Bool.negb_true_iff in H. specialize (Hd H).
-  unfold strong in Hd. split; [assumption|]. destruct (handles s), (inflight s); cbn in Hd; try lia. repeat split. lia.
+  unfold strong in Hd. split; [assumption|].
+  assert (H1 : sumw (handles s) = 0) by lia. assert (H2 : sumn (zombies s) = 0) by lia.
+  split; [now apply sumw_zero|]. split; [destruct (inflight s); [reflexivity | cbn in Hd; lia]|]. split; [lia|].
+  now apply zombies_zero.
 Qed.
 
 (* and it returns as soon as the last reference is gone: the wake-up is enabled *)
@@ -168,17 +251,18 @@ Qed.
 
 (* ---------------------------------------------------------------- nothing is left behind *)
 Definition internal (l : label) : bool :=
-  match l with LRemover | LDispatch | LReply _ | LWake _ | LReaderDrop => true | _ => false end.
+  match l with LRemover | LReap | LDispatch | LReply _ | LWake _ | LReaderDrop => true | _ => false end.
 
 Definition nu (s : st) : nat :=
-  removers s + 2 * length (queued s) + length (inflight s) + length (waiters s) + (if reader s then 1 else 0).
+  removers s + 2 * length (zombies s) + 2 * length (queued s) + length (inflight s) + length (waiters s) + (if reader s then 1 else 0).
 
 Lemma nu_settle s : nu (settle s) = nu s.
 Proof. unfold settle. destruct (alive s && Nat.eqb (strong s) 0); reflexivity. Qed.
 
 Theorem internal_decreases l s s' : internal l = true -> step l s = Some s' -> nu s' < nu s.
 Proof.
-  intros Hi Hs. destruct l as [n src k|n| |k| |k|n|n|n|]; try discriminate; cbn [step] in Hs.
+  intros Hi Hs. destruct l as [n src k|n|n|n|n| | |k| |k|n|n|n|]; try discriminate; cbn [step] in Hs.
+  - destruct (zombies s) as [|w z] eqn:Ez; [discriminate|]. inversion Hs; subst. rewrite nu_settle. unfold nu. cbn. rewrite Ez. cbn. lia.
   - destruct (removers s) as [|r] eqn:Er; [discriminate|]. inversion Hs; subst. rewrite nu_settle. unfold nu. cbn. rewrite Er. lia.
   - destruct (queued s) as [|k q] eqn:Eq; [discriminate|]. destruct (alive s); inversion Hs; subst; unfold nu; cbn; rewrite Eq; cbn;
       rewrite ?app_length; cbn; lia.
@@ -190,14 +274,17 @@ Proof.
     destruct E as [Er _]. unfold nu. cbn. rewrite Er. lia.
 Qed.
 
-(* all handles dropped, all handlers returned, no internal step left: the connection is completely gone *)
+(* all handles dropped (every proxy with the cache it started), all handlers returned, no internal step left: the connection
+   is completely gone *)
 Theorem all_released tr s : reach tr s -> handles s = [] -> inflight s = [] ->
-  step LRemover s = None -> step LDispatch s = None -> (forall n, step (LWake n) s = None) -> step LReaderDrop s = None ->
-  alive s = false /\ reader s = false /\ waiters s = [] /\ queued s = [] /\ removers s = 0.
+  step LRemover s = None -> step LReap s = None -> step LDispatch s = None -> (forall n, step (LWake n) s = None) ->
+  step LReaderDrop s = None ->
+  alive s = false /\ reader s = false /\ waiters s = [] /\ queued s = [] /\ removers s = 0 /\ zombies s = [].
 Proof.
-  intros Hr Hh Hf H1 H2 H3 H4. cbn [step] in *.
+  intros Hr Hh Hf H1 H5 H2 H3 H4. cbn [step] in *.
   assert (Hrm : removers s = 0) by (destruct (removers s); [reflexivity | discriminate]).
-  assert (Hal : alive s = false) by (apply (close_iff tr s Hr); unfold strong; rewrite Hh, Hf, Hrm; reflexivity).
+  assert (Hzb : zombies s = []) by (destruct (zombies s); [reflexivity | discriminate]).
+  assert (Hal : alive s = false) by (apply (close_iff tr s Hr); unfold strong; rewrite Hh, Hf, Hrm, Hzb; reflexivity).
   rewrite Hal in *. cbn in *.
   assert (Hq : queued s = []) by (destruct (queued s); [reflexivity | discriminate]).
   assert (Hrd : reader s = false) by (destruct (reader s); [discriminate | reflexivity]).
@@ -219,19 +306,58 @@ Theorem run_sound tr s : run tr init = Some s -> reach tr s.
 Proof. intros H. apply (run_reach_gen tr [] init s); [constructor | assumption]. Qed.
 
 (* ---------------------------------------------------------------- non-vacuity *)
-(* a clone, a rule stream, a proxy with a signal stream; two slow handlers; graceful shutdown has to wait for both *)
+(* a clone, a rule stream, an eagerly caching proxy with a signal stream, a lazy proxy whose cache starts later; two slow
+   handlers; graceful shutdown has to wait for both, and for the executor to drop the cancelled cache tasks *)
 Definition demo_trace : list label :=
-  [LNew 1 0 HConn; LNew 2 1 (HStreamRule 0); LNew 3 2 HProxy; LNew 4 3 HSignals;
+  [LNew 1 0 HConn; LNew 2 1 (HStreamRule 0);
+   LNew 3 2 (HProxy CIdle); LCacheStart 3; LCacheReady 3;          (* CacheProperties::Yes *)
+   LNew 4 3 HSignals; LNew 5 0 (HProxy CIdle); LCacheStart 5;      (* a lazy proxy, first get_property: GetAll unanswered *)
    LCallIn 7; LCallIn 8; LDispatch; LDispatch;
-   LDrop 1; LDrop 2; LRemover; LDrop 4; LDrop 3; LRemover;
-   LGraceful 0;                      (* the last user handle: two handlers still hold the connection *)
-   LReply 8; LReply 7;               (* the second reply releases it *)
+   LDrop 1; LAsyncDrop 2; LDrop 4; LDrop 3; LDrop 5; LRemover;
+   LGraceful 0;                      (* the last user handle: two handlers and two cancelled cache tasks still hold the connection *)
+   LReply 8; LReply 7; LReap; LReap; LRemover; LRemover;
    LWake 0; LReaderDrop].
 
 Example demo : exists s, run demo_trace init = Some s /\
   events s = [EReply 8; EReply 7; EClosed; EWake 0; EReadDrop] /\ alive s = false /\ reader s = false /\ strong s = 0 /\ waiters s = [].
 Proof. eexists. split; [vm_compute; reflexivity|]. repeat split. Qed.
 
-Example demo_not_before : exists s, run (firstn 16 demo_trace) init = Some s /\
-  alive s = true /\ strong s = 1 /\ inflight s = [7] /\ handles s = [] /\ waiters s = [0] /\ step (LWake 0) s = None.
+(* after both replies the two cancelled cache tasks alone (1 + 3 references) keep the connection: not closed, no wake-up *)
+Example demo_not_before : exists s, run (firstn 21 demo_trace) init = Some s /\
+  alive s = true /\ strong s = 4 /\ inflight s = [] /\ handles s = [] /\ zombies s = [1; 3] /\ waiters s = [0] /\ step (LWake 0) s = None.
 Proof. eexists. split; [vm_compute; reflexivity|]. repeat split. Qed.
+
+(* ---------------------------------------------------------------- a proxy owns what its cache started *)
+Lemma strong_settle s : strong (settle s) = strong s.
+Proof. unfold settle. destruct (alive s && Nat.eqb (strong s) 0); reflexivity. Qed.
+
+(* dropping a proxy — whatever state its property cache is in — and letting the executor run gives back every reference the
+   proxy and its cache task held: 1 for a proxy without a started cache, 1 + 3 while the cache waits for GetAll, 1 + 1 afterwards *)
+Theorem drop_proxy_releases s n c : lookup n (handles s) = Some (HProxy c) -> zombies s = [] ->
+  exists s', run (LDrop n :: (if started c then [LReap; LRemover] else [])) s = Some s' /\
+             strong s' + weight (HProxy c) = strong s /\ zombies s' = [] /\ lookup n (handles s') = lookup n (remove_h n (handles s)).
+Proof.
+  intros El Ez. pose proof (lookup_remove_len _ _ _ El) as Hl.
+  destruct (started c) eqn:Es; cbn [run step]; rewrite El, Es.
+  - rewrite Ez. cbn [app].
+    set (s1 := settle (upd_z s (remove_h n (handles s)) (removers s) [cw c])).
+    assert (Hz1 : zombies s1 = [cw c]) by (unfold s1, settle; destruct (alive _ && _); reflexivity).
+    assert (Hh1 : handles s1 = remove_h n (handles s)) by (unfold s1, settle; destruct (alive _ && _); reflexivity).
+    assert (Hr1 : removers s1 = removers s) by (unfold s1, settle; destruct (alive _ && _); reflexivity).
+    assert (Hf1 : inflight s1 = inflight s) by (unfold s1, settle; destruct (alive _ && _); reflexivity).
+    cbn [run step]. rewrite Hz1.
+    set (s2 := settle (upd_z s1 (handles s1) (S (removers s1)) [])).
+    assert (Hr2 : removers s2 = S (removers s)) by (unfold s2, settle; destruct (alive _ && _); cbn; now rewrite Hr1).
+    cbn [run step]. rewrite Hr2. eexists. split; [reflexivity|].
+    assert (Hh2 : handles s2 = remove_h n (handles s)) by (unfold s2, settle; destruct (alive _ && _); cbn; exact Hh1).
+    assert (Hz2 : zombies s2 = []) by (unfold s2, settle; destruct (alive _ && _); reflexivity).
+    assert (Hf2 : inflight s2 = inflight s) by (unfold s2, settle; destruct (alive _ && _); cbn; exact Hf1).
+    split; [|split].
+    + rewrite strong_settle. unfold strong. cbn. rewrite Hh2, Hz2, Hf2, Ez. cbn in *. lia.
+    + unfold settle. destruct (alive _ && _); cbn; exact Hz2.
+    + unfold settle. destruct (alive _ && _); cbn; now rewrite Hh2.
+  - eexists. split; [reflexivity|]. split; [|split].
+    + rewrite strong_settle. unfold strong. cbn. rewrite Ez. destruct c; try discriminate; cbn in *; lia.
+    + unfold settle. destruct (alive _ && _); cbn; exact Ez.
+    + unfold settle. destruct (alive _ && _); reflexivity.
+Qed.
